@@ -169,6 +169,14 @@ theorem tie_struct_shape :
     structName = "CollectingProcess" ∧ mutexFields = ["mutex"] ∧
     sharedFields.all (fun f => (structFields.map (·.1)).contains f) = true := by decide
 
+/-- decodeDataSet reads a stored template's element list AFTER getTemplateIEs has released the read lock.
+    That is free of data races only because a published element list is never changed in place - a new
+    definition of the template installs a NEW list. The translator lists every syntactic use of `.ies`
+    that could change a list in place (re-slicing, append to it, copy into it, assignment to one of its
+    elements); there is none. (A change of this kind is a data race between two exporters that share an
+    observation domain and template id - a schedule no deterministic input reproduces - so it is tied here.) -/
+theorem tie_template_elements_never_changed_in_place : templateIesInPlace = [] := by decide
+
 /-! ## Non-vacuity -/
 
 /-- two connections, a fair schedule: everything is delivered, per-connection order kept, the map is empty, stopped -/
